@@ -88,7 +88,7 @@ _GRAPH_TRUST = ['assumed contract of the built-in list (append/remove/in/index/c
                 'graph lemma axioms D1-D5, G1 (transcriptions of lemmas/Graph.lean, proved in Lean 4 + Mathlib; transcription trusted, validated on all relations over <= 4 nodes)',
                 'history induction (meta-argument): every public mutator preserves Inv on both exits, constructors establish it; closed by the encapsulation scan']
 _GRAPH_B = ['WBS.__init__ with initial tasks, Task.__init__ with dependency arguments, operators with a single task or a non-list iterable as right operand - bounded stand-in only (random histories of public calls)',
-            'Task.children.setter: the claim that its attach loop cannot reject once the checks have passed (C15; needs the meaning of the id test at the intermediate states) - bounded stand-in only',
+            'callers of the children setter (roots setter, _ChildrenList.remove, WBS.remove / remove_all, //, constructor): their contracts still allow a refusal out of the attach loop of the children setter (the proof that it cannot happen needs ids unique (U1) in the pre-state, which these callers do not carry) - C15 of these paths: bounded stand-in',
             'assumed by contract: _to_list (type dispatch of the setters\' argument), the correspondence between the opaque id-clash predicate used in the mutator units and the proved post-condition of _has_id_intersection (same sentence, two formulations), '
             'the read-only list view _ImmutableTaskList (delegates in / iteration / len to the wrapped list). The closure helpers are no longer assumed: Task.all_children / __get_all_children / its generator, '
             'all_parents, all_predecessors / all_successors with _unique_tasks, _check_no_links_to_ancestors, the getters parent / id / wbs and Task._attach / _detach / __set_children are proved in their own units; '
@@ -98,7 +98,9 @@ _GRAPH_EXPL = ('contract-based deductive verification of the core mutators: Task
                'proved on the normal AND the exceptional exit for an arbitrary heap satisfying Inv - i.e. for every history - together with `rejected => heap unchanged` (C15), `rejected only for a stated reason / accepted only without one`, '
                'and the exact effect with frame (C16). Task.children.setter (the assignment task.children = [...] / wbs.roots = [...]) is proved too (a task named several times ends up listed once, at the place of its last occurrence): checks, release loop (closed form of the ancestry after several cuts), '
                'clear, attach loop - the parent setter is proved for an arbitrary set of tasks exempt from W1r, because between the two loops the kept children are detached but still labelled; the loop invariant says every such task sits below a named task still to be attached. '
-               'Result: Inv, the exact effect, `rejected by a check => unchanged`, `rejected only for a stated reason`. Its callers WBS.roots.setter, _ChildrenList.remove, the recursive WBS.__remove (returns True exactly for a task below the start task) '
+               'Result: Inv, the exact effect, `rejected by a check => unchanged`, `rejected only for a stated reason`; and in a second unit over the same function (`[no-late-refusal]`): once the checks have passed the attach loop cannot be refused '
+               '(owner, id, cycle and link test of the parent setter each shown to pass at every iteration: the ancestors of the task do not change, owners only become None or the task\'s owner, subtrees of the tasks still to attach do not grow, '
+               'the receiving tree only gains incoming tasks, and ids are unique across the receiving tree and the incoming tasks - from U1 and the proved meaning of the id test) - so a rejected assignment changes nothing (C15). Its callers WBS.roots.setter, _ChildrenList.remove, the recursive WBS.__remove (returns True exactly for a task below the start task) '
                'and WBS.remove, and the operators t // others, t << others, t >> others (right operand a list of tasks) are proved against these contracts. The list facades are proved against those contracts (callers see only the callee contract): _ChildrenList.append / insert / move / sort / reorder and _PredecessorsList / _SuccessorsList append / remove, '
                'as are the ownership walks Task._attach / _detach, the list-object setter __set_children and the closure helpers the mutators call (recursive generators executed with a ghost output list; '
                'all_children is proved to return exactly the depth-first listing dfs(t) = concat over the children c in list order of [c] + dfs(c), every strict descendant once - which is WBS.tasks (C05); '
